@@ -71,7 +71,9 @@ CvTags ==
       tol     == IF ~e.nan /\ (ur > VMax + TolU \/ ur < -TolU) THEN 0 ELSE TolU
       okFree  == ~strict /\ n >= 0 /\ n <= Top /\ AcceptT(allowed, uc, n, tol)
   IN   (IF n < 0 \/ n > Top \/ (n % PC) \notin allowed THEN {<<"C07", "forbidden-note">>} ELSE {})
-  \cup (IF ~hist /\ ~okFree THEN {<<"C08", "nearest">>} ELSE {})
+  \* a NaN is not a voltage: C07 (an allowed note) and C17 (no panic) apply, nothing else is specified
+  \cup IF e.nan THEN {} ELSE
+       (IF ~hist /\ ~okFree THEN {<<"C08", "nearest">>} ELSE {})
   \cup (IF hist /\ strict /\ n # last THEN {<<"C09", "not-stable">>} ELSE {})
   \cup (IF hist /\ ~okKeep /\ ~okFree /\ ~(strict /\ n # last) THEN {<<"C09", "not-memoryless">>} ELSE {})
   \* (inputs inside the range only: above the range the search sees the clamped input while the window
